@@ -24,7 +24,8 @@ META = {
                 "by the same TLA+ clause operators (trace validation).",
         "note": "trusted: the simulated OS semantics (install overwrites, uninstall of a missing definition = 'removed manually', start "
                 "of an active unit is a no-op, processes survive uninstall), TLC. An operation is what the antctl command does for one "
-                "service (partial refresh, then the ServiceManager call). Processes do not die spontaneously (I6).",
+                "service (partial refresh, then the ServiceManager call). Between operations the environment may kill the process of "
+                "a service or respawn it with a new pid; such events are not judged themselves, the next operation is.",
         "design_ref": "5 Area ServiceLifecycle",
     },
     "C20": {
@@ -135,9 +136,9 @@ def _slim(e):
     if e["ev"] != "Op":
         return {"ev": e["ev"], "run": e.get("run", 0)}
     return {"ev": "Op", "run": e["run"], "i": e["i"], "op": e["op"], "svc": e["svc"], "res": e["res"], "req": e["req"],
-            "reload_eq": e["reload_eq"],
-            "reg": [{"st": r["st"], "pid": r["pid"], "name": r["name"], "dir": r["dir"], "ports": r["ports"]} for r in e["reg"]],
-            "os": {"procs": e["os"]["procs"]}}
+            "reload_eq": e["reload_eq"], "refreshed": e["refreshed"],
+            "reg": [{"st": r["st"], "pid": r["pid"], "name": r["name"], "dir": r["dir"], "ports": r["ports"], "um": r["um"]} for r in e["reg"]],
+            "os": {"procs": e["os"]["procs"], "insts": e["os"]["insts"]}}
 
 
 def _validate_life(events, w, tag):
@@ -173,8 +174,8 @@ def _scenario_of(events, idx):
     for e in events[j + 1: idx + 1]:
         if e["ev"] == "Op" and e["run"] == run:
             steps.append({"op": e["op"], "svc": e["svc"], "cnt": e["cnt"], "port": e["port"], "kind": e["kind"], "start": e["start"],
-                          "keep": e["keep"], "faults": e["consumed"]})
-    return {"id": 1, "um": reset.get("um", False), "arst": reset.get("arst", False), "steps": steps}
+                          "port2": e.get("port2", 0), "kind2": e.get("kind2", ""), "keep": e["keep"], "faults": e["consumed"]})
+    return {"id": 1, "um": reset.get("um", False), "arst": reset.get("arst", False), "dne": reset.get("dne", False), "steps": steps}
 
 
 def run_c19(v, w, tier, replay):
@@ -188,7 +189,11 @@ def run_c19(v, w, tier, replay):
         scenarios = [sc]
     else:
         # 1. exhaustive exploration of the model + scenario generation
-        cfgs = ["MCService_thorough.cfg", "MCService_wide.cfg"] if thorough else ["MCService.cfg"]
+        # + [C19-1] environment actions (kill / respawn), [C19-2] two port options of different kinds in one add; the class
+        # "ranges overlapping across kinds" only with VERIF_ENABLE_CROSSKIND_PORTS=1 (suspected defect of /repo, see report B9)
+        ports_cfg = "MCService_ports_x.cfg" if os.environ.get("VERIF_ENABLE_CROSSKIND_PORTS") == "1" else "MCService_ports.cfg"
+        cfgs = (["MCService_thorough.cfg", "MCService_wide.cfg", "MCService_env_thorough.cfg", ports_cfg] if thorough
+                else ["MCService.cfg", "MCService_env.cfg", ports_cfg])
         scenarios, seen = [], set()
         for cfg in cfgs:
             mc, scs, n_rec = _mc_scenarios(cfg, w)
@@ -196,7 +201,7 @@ def run_c19(v, w, tier, replay):
             n_states += mc.distinct
             log("C19 %s: %d distinct states, %d transitions, %d histories -> %d scenarios (%.0fs)" % (cfg, mc.distinct, mc.generated, n_rec, len(scs), mc.wall))
             for s in scs:
-                k = hashlib.sha1(json.dumps([[t[f] for f in ("op", "svc", "cnt", "port", "kind", "start", "faults")] for t in s["steps"]]).encode()).hexdigest()
+                k = hashlib.sha1(json.dumps([[t.get(f) for f in ("op", "svc", "cnt", "port", "kind", "start", "faults", "port2", "kind2")] for t in s["steps"]]).encode()).hexdigest()
                 if k not in seen:
                     seen.add(k)
                     scenarios.append(s)
@@ -204,6 +209,7 @@ def run_c19(v, w, tier, replay):
             s["id"] = i + 1
             s["um"] = i % 2 == 1
             s["arst"] = (i // 2) % 2 == 1
+            s["dne"] = (i // 4) % 2 == 1
         # 1b. the clause operators are not vacuous on the model: the two repaired defects, put back into the model, are found
         for cfg, what in (("MCService_neg_pid.cfg", "failed process lookup taken as 'not running'"),
                           ("MCService_neg_name.cfg", "service numbered by registry length")):
@@ -254,7 +260,8 @@ def run_c19(v, w, tier, replay):
             continue
         reported.add(k)
         v.violation(clause, "run %s step %s: %s(svc %s) -> %s; registry %s; processes %s; faults consumed so far %s" % (
-            e["run"], e["i"], e["op"], e["svc"], e["res"], [(r["st"], r["pid"], r["name"], r["dir"]) for r in e["reg"]],
+            e["run"], e["i"], e["op"], e["svc"], e["res"],
+            [(r["st"], r["pid"], r["name"], r["dir"]) + ((tuple(r["ports"]),) if clause in ("C19_NoSharedPort", "C19_PortRefused") else ()) for r in e["reg"]],
             e["os"]["procs"], _scenario_of(events, idx)["steps"][-1]["faults"]),
             {"area": "service", "kind": "life", "scenario": _scenario_of(events, idx)})
     # model / implementation disagreement that keeps the property: drift
@@ -284,9 +291,13 @@ def run_c19(v, w, tier, replay):
         v.cov["by_op_result"][k] = v.cov["by_op_result"].get(k, 0) + 1
     v.cov["rule"] = ("one scenario per distinct model state (registry, OS, fault budget, depth, clauses falsified so far) = the first "
                      "history that reached it (maximal histories only), operation sequences <= %d over <= 2 services, <= 2 faults at every "
-                     "call position; plus seeded random sequences of 3..12 operations over <= 4 services with 0..2 faults. An evaluation "
+                     "call position; the same with environment events (process killed / respawned with a new pid) for <= %d operations and "
+                     "<= %d faults; adds with two port options of different kinds for <= 3 operations over <= 3 services; plus seeded random "
+                     "sequences of 3..12 operations and environment events over <= 4 services with 0..2 faults. An evaluation "
                      "is one operation of the real code judged by all C19 clauses; distinct_nontrivial = runs with a consumed fault, a "
-                     "successful stop/remove or a refused add." % (6 if thorough else 5))
+                     "successful stop/remove or a refused add." % (6 if thorough else 5, 5 if thorough else 4, 2 if thorough else 1))
+    v.cov["env_events"] = sum(1 for e in ops if e["op"] in ("Kill", "Respawn"))
+    v.cov["adds_with_two_port_kinds"] = sum(1 for e in ops if e["op"] == "Add" and e.get("port2"))
     v.cov["samples"] = [{k: e[k] for k in ("run", "i", "op", "svc", "res", "consumed", "calls", "reg", "os", "reload_eq", "src")}
                         for e in (ops[:2] + ops[len(ops) // 2: len(ops) // 2 + 1] + ops[-1:])]
     v.cov["exhaustive"] = (not replay) and not v.drift
@@ -294,9 +305,16 @@ def run_c19(v, w, tier, replay):
         "simulated OS: install overwrites a definition of the same label; uninstall of a missing definition reports 'removed manually'; "
         "start of an active unit succeeds without effect; stop/start of a missing unit fail; processes survive uninstall; "
         "get_process_pid finds a process by its binary path",
-        "a fault is a ServiceControl/RpcActions call that returns an error and has no effect (I6); processes do not die spontaneously",
+        "a fault is a ServiceControl/RpcActions call that returns an error and has no effect (I6); processes die / are respawned by the OS "
+        "only between operations (environment events Kill / Respawn); a record that was already stale before an operation that never "
+        "read the process table (`add`, or a refresh cut short by a failing call) is not charged to that operation",
+        "uninstall of a missing definition reports ServiceRemovedManually or ServiceDoesNotExists (per scenario); the simulated node reports two connected peers",
         "an operation is the antctl command for one service: refresh_node_registry(partial) then ServiceManager::{start,stop,remove,upgrade}; add = add_node",
-        "exhaustive within: <= 2 services, <= %d operations, <= 2 faults, one requestable port" % (6 if thorough else 5),
+        "exhaustive within: <= 2 services, <= %d operations, <= 2 faults, one requestable port; with environment events: <= %d operations, "
+        "<= %d faults; two port options of different kinds per add: <= 3 services, <= 3 operations, no faults, three requestable ports%s" % (
+            6 if thorough else 5, 5 if thorough else 4, 2 if thorough else 1,
+            "" if os.environ.get("VERIF_ENABLE_CROSSKIND_PORTS") == "1" else
+            "; ranges overlapping ACROSS kinds within one batch are generated only with VERIF_ENABLE_CROSSKIND_PORTS=1"),
     ]
 
 
@@ -358,7 +376,9 @@ def run_c20(v, w, tier, replay):
     thorough = tier == "thorough"
     cases_path = os.path.join(w, "cases.ndjson")
     if replay:
-        cases = [dict(replay["case"], id=1)]
+        # replays recorded before a dimension existed: the value that means "as before"
+        o = dict({"nat": "off", "multi": False, "started": False}, **replay["case"]["o"])
+        cases = [dict(replay["case"], o=o, id=1)]
     else:
         # 1. laws of the executable specification on every case, coverage of the case list, case generation
         mc = tlc("service", "MCServiceArgs", "MCServiceArgs_thorough.cfg" if thorough else "MCServiceArgs.cfg", w,
@@ -414,8 +434,9 @@ def run_c20(v, w, tier, replay):
         ia, ua = e.get("install", {}).get("args", []), e.get("upgrade", {}).get("args", [])
         only_i = [a for a in ia if a not in ua]
         only_u = [a for a in ua if a not in ia]
-        detail = "case %s: add=%s upgrade=%s(%s); only in install args %s; only in upgrade args %s; autostart %s->%s; env %s->%s; node(install) exit %s %s; node(upgrade) exit %s %s; options %s" % (
-            e["id"], e["add_res"], e["upg_res"], e["upg_detail"][:80], only_i, only_u,
+        detail = "case %s: add=%s start=%s upgrade=%s(%s); only in install args %s; only in upgrade args %s (port the started node listened on: %r); user_mode %s->%s; autostart %s->%s; env %s->%s; node(install) exit %s %s; node(upgrade) exit %s %s; options %s" % (
+            e["id"], e["add_res"], e.get("start_res"), e["upg_res"], e["upg_detail"][:80], only_i, only_u, e["conc"].get("listen"),
+            e.get("install_um"), e.get("upgrade_um"),
             e.get("install", {}).get("autostart"), e.get("upgrade", {}).get("autostart"),
             e.get("install", {}).get("env"), e.get("upgrade", {}).get("env"),
             e["node_i"].get("exit"), e["node_i"].get("err", "")[:120].replace("\n", " "),
@@ -427,7 +448,11 @@ def run_c20(v, w, tier, replay):
     v.cov["events_validated"] = len(events)
     v.cov["node_runs"] = sum(1 for e in events for k in ("node_i", "node_u") if e[k].get("exit", -3) != -3)
     v.cov["node_accepted"] = sum(1 for e in events for k in ("node_i", "node_u") if e[k].get("ok"))
-    v.cov["rule"] = ("cases = rows of an orthogonal array of strength %d over the 27 dimensions (26 options and whether a second service is added, without / with another --env, before the upgrade) (network selection incl. custom EVM, "
+    v.cov["started_before_upgrade"] = sum(1 for e in events if e["o"].get("started") and e.get("start_res") == "Ok")
+    v.cov["second_of_batch"] = sum(1 for e in events if e["o"].get("multi"))
+    v.cov["auto_nat"] = sum(1 for e in events if e["o"].get("nat", "off") != "off")
+    v.cov["rule"] = ("cases = rows of an orthogonal array of strength %d over the 30 dimensions (26 options; whether a second service is added, without / with another --env, before the upgrade; "
+                     "--auto-set-nat-flags with each recorded NAT status; --count 2 with port ranges, the SECOND service being the one upgraded; whether the service is started before the upgrade) (network selection incl. custom EVM, "
                      "node/rpc/metrics ports, rpc address, node ip, first/local/peers/contacts-url/ignore-cache/testnet/cache-dir, log "
                      "format/dir/max files/max archived, owner, home-network, upnp, user mode, environment, auto-restart, rewards address, "
                      "network id, upgrade --env), repaired to installable combinations; TLC checks that every installable pair of values "
@@ -436,9 +461,11 @@ def run_c20(v, w, tier, replay):
                          "node_i": e["node_i"].get("dump")} for e in events[:2]]
     v.cov["exhaustive"] = False
     v.assumptions = [
-        "upgrade options are those of an `antctl upgrade` that changes nothing explicitly (auto-restart of the service, environment "
-        "recorded in the registry) or that passes --env; cmd/node.rs itself (which builds UpgradeOptions) is not driven",
-        "the service is upgraded before its first start (a started service records its listen port, which the upgrade then pins)",
+        "upgrade options are built by antctl_upgrade_options in the driver, a line-by-line transcription of cmd/node.rs upgrade() "
+        "(:453, :508-521) for `antctl upgrade [--do-not-start] [--env ..]` (no --force, no --path); cmd/node.rs itself needs the real "
+        "service manager and a release download and is not driven; every command works on the registry as reloaded from the saved file",
+        "a service started before its upgrade has recorded the port its node listens on; the upgrade is expected to pin it "
+        "(--port), see ServiceArgs.tla Pinned / IntendedU; the metrics 'enabled' judgement is derived from the two dumped inputs",
         "one concrete value per option value class (one port, one address, two peers, two urls, ...)",
         "the antnode binary is built from the same tree with default features and cfg maidsafe_safe_network_verif (hook H7)",
     ]
